@@ -175,9 +175,12 @@ end
 def wSparseD : List (Nat × Dbl) → List Tok
   | [] => []
   | (i, x) :: l => [.int i, .dbl x, .eol] ++ wSparseD l
-def wSparseI : List (Nat × Int) → List Tok
+/-- `%d` of an arbitrary `int`: the text formatter negates a negative value in an `int` (`i = -i`), which for
+    INT_MIN overflows and prints `-(` followed by garbage; every other value, and the binary formatter, are fine -/
+def wIntTok (o : Opts) (v : Int) : Tok := if !o.binary && v == -2147483648 then .bad else .int v
+def wSparseI (o : Opts) : List (Nat × Int) → List Tok
   | [] => []
-  | (i, v) :: l => [.int i, .int v, .eol] ++ wSparseI l
+  | (i, v) :: l => [.int i, wIntTok o v, .eol] ++ wSparseI o l
 
 /-! ## header: `WriteNLHeader` (always text, through `File::Printf`; the comments are always there) -/
 def wHeader (h : Hdr) (o : Opts) : List Tok :=
@@ -223,13 +226,13 @@ def wFunctions (i : Nat) : List Func → List Tok
   | f :: fs => [.ch .segF, .int i, .int f.type, .int f.nargs, .name f.name, .eol] ++ wFunctions (i + 1) fs
 
 /-- `StartIntSuffix` / `StartDblSuffix`: nothing at all for zero entries -/
-def wSuffix (s : Suffix) : List Tok :=
+def wSuffix (o : Opts) (s : Suffix) : List Tok :=
   match s.vals with
-  | .ints l => if l.length = 0 then [] else [.ch .segS, .int s.kind, .int l.length, .name s.name, .eol] ++ wSparseI l
+  | .ints l => if l.length = 0 then [] else [.ch .segS, .int s.kind, .int l.length, .name s.name, .eol] ++ wSparseI o l
   | .dbls l => if l.length = 0 then [] else [.ch .segS, .int s.kind, .int l.length, .name s.name, .eol] ++ wSparseD l
-def wSuffixes : List Suffix → List Tok
+def wSuffixes (o : Opts) : List Suffix → List Tok
   | [] => []
-  | s :: ss => wSuffix s ++ wSuffixes ss
+  | s :: ss => wSuffix o s ++ wSuffixes o ss
 def plsosSuffixes (m : Model) : List Suffix :=
   [⟨"sos", 0, .ints m.sosv⟩, ⟨"sos", 1, .ints m.sosc⟩, ⟨"sosref", 4, .dbls m.sosref⟩]
 
@@ -308,8 +311,8 @@ def wG (i : Nat) : List (List DefVar × Obj) → List Tok
 def writeNL (m : Model) (o : Opts) : List Tok :=
   wHeader (effHdr m) o ++
   (wFunctions 0 m.funcs ++
-  (wSuffixes m.sufs ++
-  (wSuffixes (plsosSuffixes m) ++
+  (wSuffixes o m.sufs ++
+  (wSuffixes o (plsosSuffixes m) ++
   ((if o.boundsFirst then
       wVarBounds m o ++ (wInit .segx o "initial guess" m.x0 ++ (wConBounds m o ++ wInit .segd o "initial dual guess" m.d0))
     else []) ++
